@@ -21,6 +21,10 @@ def run(ctx):
                       "Parameters._state_pop; _Dynamic_time_fn only in _initialize_generator and Parameters.set_dynamic_time_fn", floor=8)
     ctx.rule("R19.t", "time-fn model: Parameters.set_dynamic_time_fn interpreted for an instance whose parameter holds a generator set on the instance (class default: a number) and for a class "
                       "whose default is a generator: the object and every generator currently producing ITS values (asked of the object, not of its class) receive the clock", floor=1)
+    ctx.rule("R19.v", "the generator that state push / pop and inspection operate on is the one attribute access reads: Parameters.get_value_generator / inspect_value take the value from the "
+                      "instance's value store or the CLASS-level Parameter, never from a per-instance Parameter copy (which keeps the default it was created with) -- shared with R13.g", floor=2)
+    ctx.rule("R19.y", "Dynamic set model: generator state is (re)initialised only for a value that was actually stored -- never before the assignment is accepted (a refused assignment of a "
+                      "generator already in use elsewhere would wipe its cached value and saved states), never on a reference", floor=1)
     ctx.rule("R19.a", "every random generator's __call__ reseeds (super().__call__()) on all paths before it draws from self.random_generator; "
                       "RandomDistribution.__call__ reseeds under time_dependent; the seed is a function of (name-hash, time, global seed) only; "
                       "Hash.__call__ works on a copy of the digest", floor=9)
@@ -352,6 +356,10 @@ def run(ctx):
     from checks.shared import dynamic_cache_writers, time_fn_model
     dynamic_cache_writers(ctx, "R19.w")
     time_fn_model(ctx, "R19.t")
+    from checks.c13 import value_reporters_agree
+    value_reporters_agree(ctx, "R19.v")
+    from checks.shared import dynamic_set_model
+    dynamic_set_model(ctx, "R19.y")
 
 
 def hash_state_agreement(ctx, rule):
